@@ -178,6 +178,26 @@ impl Parser {
     }
 }
 
+/// Verification hook (observation only, compiled only with `--cfg icy_engine_verif`).
+#[cfg(icy_engine_verif)]
+impl Parser {
+    /// lexer state, accumulated numbers and string, loop sub-state, loop command, loop parameters, `::` flag,
+    /// and the running loop as (i, from, to, step, delay, number of parameter groups)
+    #[allow(clippy::type_complexity)]
+    pub fn verif_digest(&self) -> (String, Vec<i32>, String, String, char, Vec<Vec<String>>, bool, Option<(i32, i32, i32, i32, i32, usize)>) {
+        (
+            format!("{:?}", self.state),
+            self.parsed_numbers.clone(),
+            self.parsed_string.clone(),
+            format!("{:?}", self.loop_state),
+            self.loop_cmd,
+            self.loop_parameters.clone(),
+            self.got_double_colon,
+            self.cur_loop.as_ref().map(|l| (l.i, l.from, l.to, l.step, l.delay, l.parameters.len())),
+        )
+    }
+}
+
 impl BufferParser for Parser {
     fn get_next_action(&mut self, buffer: &mut Buffer, caret: &mut Caret, _current_layer: usize) -> Option<CallbackAction> {
         if let Some(l) = &mut self.cur_loop {
